@@ -125,7 +125,8 @@ impl AnnotationKinds {
             AnnotationKinds::Hash => vec!["Hash"],
             AnnotationKinds::FieldElement => vec!["Field Element"],
             AnnotationKinds::FieldElements => vec!["Field Elements"],
-            AnnotationKinds::DataAndHash => vec!["Data", "Hash"],
+            // one pattern, so that authentication nodes keep their order in the proof stream
+            AnnotationKinds::DataAndHash => vec!["(?:Data|Hash)"],
         }
     }
 }
